@@ -80,12 +80,13 @@ def parse(lexer):
             lexer.getPos(),
         )
     if isinstance(result, NodeReturn):
-        result = result.expression
+        if result.expression:
+            result = result.expression
     elif isinstance(result, NodeBlock):
         expressions = result.expressions
         if len(expressions) > 0:
             lastexpr = expressions[-1]
-            if isinstance(lastexpr, NodeReturn):
+            if isinstance(lastexpr, NodeReturn) and lastexpr.expression:
                 expressions[-1] = lastexpr.expression
     return result
 
